@@ -35,7 +35,7 @@ def S(t, al=None, depth=0):
     if k == "ref":
         n = t["n"]
         if al and n in al and t.get("vk") in ("local", "param") :
-            return S(al[n], None, d)
+            return S(al[n], al, d + 4)
         return n
     if k == "this":
         return "this"
@@ -280,6 +280,34 @@ class Fn:
     def path(self, tree):
         return S(tree, self.aliases())
 
+    def defs(self):
+        """single-definition locals: name -> init tree (declared once with an
+        initialiser, never assigned, ++/-- or address-taken afterwards)"""
+        if getattr(self, "_defs", None) is None:
+            cand, killed = {}, set()
+            for _, e in self.events(reachable_only=False):
+                k = e["k"]
+                if k == "decl" and "init" in e and not e.get("ref"):
+                    if e["n"] in cand:
+                        killed.add(e["n"])
+                    cand[e["n"]] = e["init"]
+                elif k == "assign":
+                    t = e.get("lhs")
+                    if isinstance(t, dict) and t.get("k") == "ref":
+                        killed.add(t["n"])
+                elif k == "call" and e.get("op") in ("=", "+=", "-=", "++", "--", "|=", "&="):
+                    t = e.get("recv")
+                    if isinstance(t, dict) and t.get("k") == "ref":
+                        killed.add(t["n"])
+            for _, e in self.events(reachable_only=False):
+                for n in walk(e):
+                    if n.get("k") == "un" and n.get("op") == "&":
+                        t = n.get("e")
+                        if isinstance(t, dict) and t.get("k") == "ref":
+                            killed.add(t["n"])
+            self._defs = {n: t for n, t in cand.items() if n not in killed}
+        return self._defs
+
     # --- path search
     def search(self, starts, stop=None, edge_ok=None, through=None):
         """Forward search from start states. A state is (bid, idx) = about to
@@ -334,6 +362,77 @@ class Fn:
                 if edge_ok is not None and not edge_ok(bid, i, s):
                     continue
                 dq.append((s, 0))
+        return hits, reached_exit
+
+    def search_tracked(self, starts, stop=None, track=(), edge_ok=None, kills=None, init=None):
+        """like search(), but remembers the truth value of the tracked literals
+        (canonical strings, aliases resolved) along the path: a second test of
+        the same literal follows only the consistent edge. An assignment to a
+        tracked path forgets its value (kills(ev) may name more). Returns
+        (hits, reached_exit); hits are (pos, known) pairs."""
+        al = self.aliases()
+        track = set(track)
+        br = {}
+        for bid in self.blocks:
+            b = self.branch(bid)
+            if b is None:
+                continue
+            s = S(b[0], al)
+            if s in track:
+                br[bid] = (s, b[1])
+        seen = set()
+        hits = []
+        reached_exit = False
+        dq = deque((b, i, frozenset((init or {}).items())) for (b, i) in starts)
+        while dq:
+            bid, idx, known = dq.popleft()
+            if (bid, idx, known) in seen:
+                continue
+            seen.add((bid, idx, known))
+            b = self.blocks.get(bid)
+            if b is None:
+                continue
+            evs = b["ev"]
+            stopped = False
+            kd = dict(known)
+            for i in range(idx, len(evs)):
+                e = evs[i]
+                if stop is not None and stop(e):
+                    hits.append(((bid, i), dict(kd)))
+                    stopped = True
+                    break
+                if e["k"] == "assign":
+                    lp = S(e.get("lhs"), al)
+                    if lp in kd:
+                        del kd[lp]
+                    # prefix kill: assigning x kills x->y
+                    for k in [k for k in kd if k.startswith(lp + "->") or k.startswith(lp + ".")]:
+                        del kd[k]
+                elif e["k"] == "call" and e.get("op") in ("=",) and e.get("recv") is not None:
+                    lp = S(e["recv"], al)
+                    kd.pop(lp, None)
+                if kills is not None:
+                    for k in kills(e) or ():
+                        kd.pop(k, None)
+            if stopped:
+                continue
+            if bid == self.exit:
+                reached_exit = True
+                continue
+            if b.get("noreturn"):
+                continue
+            for i, s2 in self.succs(bid):
+                if edge_ok is not None and not edge_ok(bid, i, s2):
+                    continue
+                k2 = kd
+                if bid in br:
+                    name, pol = br[bid]
+                    val = pol if i == 0 else (not pol)
+                    if name in kd and kd[name] != val:
+                        continue
+                    k2 = dict(kd)
+                    k2[name] = val
+                dq.append((s2, 0, frozenset(k2.items())))
         return hits, reached_exit
 
     def after(self, pos):
